@@ -21,6 +21,8 @@ pub struct HexCase {
     /// 0 = all zero, 1 = all 0xff, otherwise SplitMix64 stream seeded with this value
     pub fill: u64,
     pub eeprom: bool,
+    /// length of the *other* image in the same BuildResult (both writers see both images)
+    pub other_len: usize,
 }
 
 fn splitmix(x: &mut u64) -> u64 {
@@ -50,8 +52,8 @@ pub fn image(c: &HexCase) -> Vec<u8> {
 pub fn check_case(c: &HexCase, tag: usize) -> Result<(), (String, String)> {
     let img = image(c);
     let br = BuildResult {
-        code: if c.eeprom { vec![] } else { img.clone() },
-        eeprom: if c.eeprom { img.clone() } else { vec![] },
+        code: if c.eeprom { (0..c.other_len).map(|i| (i * 13 + 1) as u8).collect() } else { img.clone() },
+        eeprom: if c.eeprom { img.clone() } else { (0..c.other_len).map(|i| (i * 11 + 3) as u8).collect() },
         flash_size: 4194304,
         eeprom_size: 65536,
         ram_size: 8388608,
@@ -109,14 +111,14 @@ fn size_class(len: usize) -> &'static str {
 }
 
 pub fn to_json(c: &HexCase) -> Value {
-    json!({"kind": "hex", "len": c.len, "fill": c.fill.to_string(), "eeprom": c.eeprom, "note": "replay tries all three pre-existing-file variants (none, older longer hex file, garbage)"})
+    json!({"kind": "hex", "len": c.len, "fill": c.fill.to_string(), "eeprom": c.eeprom, "other_len": c.other_len, "note": "replay tries all three pre-existing-file variants (none, older longer hex file, garbage)"})
 }
 
 pub fn replay(v: &Value) -> Option<Result<(), String>> {
     if v.get("kind")?.as_str()? != "hex" {
         return None;
     }
-    let c = HexCase { len: v.get("len")?.as_u64()? as usize, fill: v.get("fill")?.as_str()?.parse().ok()?, eeprom: v.get("eeprom")?.as_bool()? };
+    let c = HexCase { len: v.get("len")?.as_u64()? as usize, fill: v.get("fill")?.as_str()?.parse().ok()?, eeprom: v.get("eeprom")?.as_bool()?, other_len: v.get("other_len").and_then(|x| x.as_u64()).unwrap_or(0) as usize };
     for tag in 0..3 {
         if let Err((k, e)) = check_case(&c, tag) {
             return Some(Err(format!("{}: {} (pre-existing file variant {})", k, e, tag)));
@@ -136,12 +138,12 @@ pub fn run(ctx: &Ctx) -> Result<Ev, String> {
     let mut rng = par::rng_for(ctx.seed, "C07", 0);
     for len in 0..=small {
         for eeprom in [false, true] {
-            cases.push(HexCase { len, fill: 2 + rng.next_u64() % (u64::MAX - 2), eeprom });
+            cases.push(HexCase { len, fill: 2 + rng.next_u64() % (u64::MAX - 2), eeprom, other_len: 0 });
         }
     }
     for len in [0usize, 1, 15, 16, 17, 31, 32, 33, 255, 256, 257] {
         for fill in [0u64, 1] {
-            cases.push(HexCase { len, fill, eeprom: false });
+            cases.push(HexCase { len, fill, eeprom: false, other_len: 0 });
         }
     }
     let mut b = 1usize;
@@ -149,26 +151,35 @@ pub fn run(ctx: &Ctx) -> Result<Ev, String> {
         for d in -delta..=delta {
             let len = (b as i64 * 65536 + d) as usize;
             if len <= max_flash_bytes {
-                cases.push(HexCase { len, fill: 2 + rng.next_u64() % (u64::MAX - 2), eeprom: false });
+                cases.push(HexCase { len, fill: 2 + rng.next_u64() % (u64::MAX - 2), eeprom: false, other_len: 0 });
                 if b == 1 {
                     // the EEPROM writer shares the generator; the largest EEPROM in the table is far below 64 KiB,
                     // but the documented default without a device is exactly 64 KiB
                     if len <= 65536 {
-                        cases.push(HexCase { len, fill: 2 + rng.next_u64() % (u64::MAX - 2), eeprom: true });
+                        cases.push(HexCase { len, fill: 2 + rng.next_u64() % (u64::MAX - 2), eeprom: true, other_len: 0 });
                     }
                 }
             }
         }
         b += 1;
     }
+    // both images present in one result: the writers must not influence each other
+    for (len, other) in [(3usize, 70_000usize), (17, 65_537), (600, 131_073), (0, 70_000), (64, 1), (1, 16), (70_000, 3), (65_537, 100), (131_080, 65_536)] {
+        for eeprom in [false, true] {
+            if eeprom && len > 65536 {
+                continue;
+            }
+            cases.push(HexCase { len, fill: 2 + rng.next_u64() % (u64::MAX - 2), eeprom, other_len: other });
+        }
+    }
     let nrand = if ctx.thorough { 2000 } else { 150 };
     for i in 0..nrand {
         let len = (rng.next_u64() % (max_flash_bytes as u64 + 1)) as usize;
-        cases.push(HexCase { len, fill: if i % 50 == 0 { 1 } else { 2 + rng.next_u64() % (u64::MAX - 2) }, eeprom: false });
+        cases.push(HexCase { len, fill: if i % 50 == 0 { 1 } else { 2 + rng.next_u64() % (u64::MAX - 2) }, eeprom: false, other_len: 0 });
     }
     // the documented no-device flash capacity (8 MiB) needs addresses above 1 MiB
     for len in [(1usize << 20) - 1, 1 << 20, (1 << 20) + 1, (1 << 20) + 65536 + 5, 3 << 20, (8 << 20) - 3, 8 << 20] {
-        cases.push(HexCase { len, fill: 2 + rng.next_u64() % (u64::MAX - 2), eeprom: false });
+        cases.push(HexCase { len, fill: 2 + rng.next_u64() % (u64::MAX - 2), eeprom: false, other_len: 0 });
     }
     let parts: Vec<Ev> = cases
         .par_iter()
